@@ -277,3 +277,160 @@ func TestVerifC27History(t *testing.T) {
 		}, cl...)
 	})
 }
+
+// TestVerifC27Copies — several Config objects derived from one another by Copy() (Felix hands a
+// copy to the calculation graph, the dataplane connector, the policy syncer...), each then
+// receiving its own OverrideParam calls (internal overrides, the highest-priority source) and its
+// own datastore updates, in a generated order.  Oracle: every object's result is decided by *its
+// own* sources only — it equals a fresh Config given that object's sources/overrides and, for the
+// table parameters, the direct rule.
+func TestVerifC27Copies(t *testing.T) {
+	ev.Quiet()
+	infos := c27CheckTable(t)
+	defaults := c27Fields(config.New())
+	rec := ev.New("C27", "copies",
+		"2-3 table parameters; one Config loaded from all six sources, then 3-7 operations on a growing set of objects: Copy() of an object, OverrideParam on an object, replacement of one datastore source of an object; non-trivial = after a Copy, OverrideParam is called on one object and later on another object derived from / parent of it; distinct = operation sequence",
+		"only non-fatal values; OverrideParam is called with the canonical parameter name, as Felix does")
+	defer rec.Write()
+
+	rapid.Check(t, func(t *rapid.T) {
+		nPar := rapid.IntRange(2, 3).Draw(t, "nParams")
+		seen := map[string]bool{}
+		var params []string
+		for len(params) < nPar {
+			n := c27Table[rapid.IntRange(0, len(c27Table)-1).Draw(t, "param")].Name
+			if !seen[n] {
+				seen[n] = true
+				params = append(params, n)
+			}
+		}
+		var st0 c27HState
+		for s := c27Env; s < c27NumSrc; s++ { // no internal overrides yet
+			if rapid.IntRange(0, 1).Draw(t, "sourceUsed") == 0 {
+				continue
+			}
+			st0[s] = c27HDrawSource(t, s, params, infos, "start-"+c27SrcName[s])
+		}
+		boot := config.New()
+		for _, s := range []c27Src{c27Env, c27File, c27Global, c27PerSelector, c27PerHost} {
+			if _, err := boot.UpdateFrom(st0.maps(s), s.real()); err != nil {
+				t.Fatalf("start-up UpdateFrom(%s) failed on non-fatal values: %v", c27SrcName[s], err)
+			}
+		}
+		objs := []*config.Config{boot}
+		states := []c27HState{st0}
+		parent := []int{-1}
+		overridden := map[int]bool{}
+		history := "object 0:\n" + st0.dump()
+		var shape []string
+		classes := map[string]bool{}
+		nontrivial := false
+
+		verify := func(i int, when string) {
+			fresh := config.New()
+			for _, s := range []c27Src{c27Global, c27PerSelector, c27PerHost, c27File, c27Env, c27Internal} {
+				if len(states[i][s]) == 0 {
+					continue
+				}
+				if _, err := fresh.UpdateFrom(states[i].maps(s), s.real()); err != nil {
+					t.Fatalf("fresh UpdateFrom failed: %v", err)
+				}
+			}
+			want := c27HModel(states[i], params, infos, defaults)
+			fieldsOf := func(c *config.Config) map[string]string {
+				if when == "at the end" {
+					return c27Fields(c) // every tagged field
+				}
+				out := map[string]string{}
+				rv := reflect.ValueOf(c).Elem()
+				for _, p := range params {
+					out[p] = c27Canon(rv.FieldByName(p).Interface())
+				}
+				return out
+			}
+			got, ref := fieldsOf(objs[i]), fieldsOf(fresh)
+			for _, p := range params {
+				if got[p] != want[p] {
+					t.Fatalf("%s: object %d has %s = %s, but the highest-priority source that sets it on this object gives %s\nobject %d's own sources:\n%shistory:\n%s",
+						when, i, p, got[p], want[p], i, states[i].dump(), history)
+				}
+			}
+			if d := c27HDiff(got, ref); d != "" {
+				t.Fatalf("%s: object %d differs from a fresh Config given the same sources: %s\nobject %d's own sources:\n%shistory:\n%s",
+					when, i, d, i, states[i].dump(), history)
+			}
+		}
+
+		nOps := rapid.IntRange(3, 7).Draw(t, "nOps")
+		for op := 1; op <= nOps; op++ {
+			kind := rapid.SampledFrom([]string{"copy", "override", "override", "override", "datastore"}).Draw(t, "op")
+			if op == 1 {
+				kind = "copy"
+			}
+			i := rapid.IntRange(0, len(objs)-1).Draw(t, "object")
+			switch kind {
+			case "copy":
+				if len(objs) >= 4 {
+					continue
+				}
+				objs = append(objs, objs[i].Copy())
+				var cp c27HState
+				for s := range states[i] {
+					cp[s] = append([]c27HEntry(nil), states[i][s]...)
+				}
+				states = append(states, cp)
+				parent = append(parent, i)
+				history += fmt.Sprintf("op %d: object %d = object %d.Copy()\n", op, len(objs)-1, i)
+			case "override":
+				n := rapid.SampledFrom(params).Draw(t, "overriddenParam")
+				info := infos[n]
+				raw, want, cls := c27DrawRaw(t, info, "overrideRaw")
+				if info.fatal(cls) {
+					v := info.Tab.Valid[0]
+					raw, want, cls = v.Raw, v.Want, c27ClsValid
+				}
+				if _, err := objs[i].OverrideParam(n, raw); err != nil {
+					t.Fatalf("OverrideParam(%s, %q) failed on a non-fatal value: %v\nhistory:\n%s", n, raw, err, history)
+				}
+				var kept []c27HEntry
+				for _, e := range states[i][c27Internal] {
+					if e.Param != n {
+						kept = append(kept, e)
+					}
+				}
+				states[i][c27Internal] = append(kept, c27HEntry{c27Entry{Param: n, Key: n, Raw: raw}, want, cls})
+				history += fmt.Sprintf("op %d: object %d.OverrideParam(%s, %q)\n", op, i, n, raw)
+				// related objects (parent / children / siblings) that were overridden before?
+				for j := range objs {
+					if j != i && overridden[j] && (parent[i] == j || parent[j] == i || (parent[i] >= 0 && parent[i] == parent[j])) {
+						nontrivial = true
+						classes["override-on-related-objects"] = true
+					}
+				}
+				overridden[i] = true
+			default:
+				s := c27Src(rapid.IntRange(int(c27PerHost), int(c27Global)).Draw(t, "datastoreSource"))
+				states[i][s] = c27HDrawSource(t, s, params, infos, "ds")
+				if _, err := objs[i].UpdateFrom(states[i].maps(s), s.real()); err != nil {
+					t.Fatalf("UpdateFrom(%s) failed on non-fatal values: %v", c27SrcName[s], err)
+				}
+				history += fmt.Sprintf("op %d: object %d.UpdateFrom(%s):\n%s", op, i, c27SrcName[s], states[i].dump())
+				classes["datastore-update-after-copy"] = true
+			}
+			shape = append(shape, fmt.Sprintf("%s%d", kind[:2], i))
+			verify(i, fmt.Sprintf("after op %d", op))
+		}
+		for i := range objs {
+			verify(i, "at the end")
+		}
+		var cl []string
+		for c := range classes {
+			cl = append(cl, c)
+		}
+		sort.Strings(cl)
+		cl = append(cl, fmt.Sprintf("objects-%d", len(objs)))
+		rec.SizedCase(nontrivial, strings.Join(shape, ","), len(shape), func() any {
+			return map[string]any{"history": strings.Split(strings.TrimSpace(history), "\n")}
+		}, cl...)
+	})
+}
